@@ -12,7 +12,23 @@
    capacity oracle, element types with a scalar tag ([scalar]: the numeric types, bool, string).
    Excluded by [op_nilsafe] and shown as a counterexample in Proofs (finding F1): append of no value
    to a nil Value.  Not covered: slices of reference types (their unwritten cells Value{} are not
-   fixpoints of assign). *)
+   fixpoints of assign).
+
+   How to read "as Go does" in the theorems below -- three limits of the comparison:
+   - PANICS.  The result type `res` has a SINGLE constructor Panic (no message, no kind).  "Same panic"
+     therefore means only: the model panics IF AND ONLY IF Go panics (and then neither changes the state);
+     which run-time error it is (index out of range vs slice bounds out of range vs makeslice: len out of
+     range) is not compared.
+   - NIL vs EMPTY.  The abstraction `abs` maps a variable to (element type, descriptor): a nil Value AND a
+     non-nil Value whose data is the nil descriptor are both Go's nil (gdata (GNil _) = SNil), and the
+     refinement statements compare abstract states.  So whether `s == nil` holds after a history is NOT
+     part of c11_refine (g_isnil is not in the abstract state); the one place where goatlang and Go are
+     known to differ on it is finding F1 (op_nilsafe).
+   - ELEMENT CONVERSION.  The Go-side history semantics (GoSpec/GoSliceHist.v) converts a stored value to
+     the element type with assign_to t v := Value_assign v t -- the SAME generated function the model uses.
+     The refinement therefore does not check the conversion itself (it is identical on both sides by
+     construction); what Value_assign does is property C04 (c04_assign) and the first three conjuncts of
+     c11_elemty. *)
 From Coq Require Import ZArith List Bool.
 From GV Require Import GoSpec.GoPrim GoSpec.GoSlice GoSpec.GoSliceHist Gen.ValueOps_gen Model.Slice
   Proofs.C11_goslice Proofs.C11_slice.
@@ -94,7 +110,13 @@ Proof. exact (conj copy_moves_min (conj csrc_len_slice csrc_len_str)). Qed.
 
 (* BOUNDS.  Index and element write outside 0 <= k < len, slice bounds outside 0 <= i <= j <= cap
    (negative run-time operands included; omitted upper bound = len), negative make length: a panic,
-   never a value; inside the bounds: never a panic. *)
+   never a value; inside the bounds: never a panic.
+   Conjunct 2 (a read inside the bounds yields a value) needs wf_slice: the cell must exist in the store.
+   Conjunct 4 (a write inside the bounds does not panic) has NO wf_slice premise and needs none: `set`
+   (GoSpec/GoSlice.v, shared by model and spec) decides by the descriptor's length alone, and writing
+   through a descriptor that points outside the store is a silent no-op there, not a panic.  So for an
+   ILL-FORMED descriptor conjunct 4 says less than it seems (Go would fault on the array access); such
+   descriptors do not arise: Inv (c11_inv) keeps every variable's descriptor wf_slice. *)
 Theorem c11_bounds :
   (forall st g k, ~ (0 <= Value_Int k < Z.of_nat (Value_Len g)) -> Value_Get st g k = Panic) /\
   (forall st g k, wf_slice st (gdata g) -> 0 <= Value_Int k < Z.of_nat (Value_Len g) -> exists v, Value_Get st g k = Ok v) /\
